@@ -249,6 +249,36 @@ pub fn c17(out: &mut Out, _thorough: bool) {
     out.case("empty-book", true, "expect same empty-book".into(), || {
         if chess_lookup::EMPTY_BOOK_MOVES.into_iter().next().is_none() { "same".into() } else { "differs:empty-book-yields".into() }
     });
+    // reading a reply list by position: `nth(n)` is the n-th element of plain iteration and nothing beyond the end,
+    // on every node of the first three plies (and `count`, `last`, `size_hint` agree with the length)
+    out.case("reply-lists-by-position", true, "expect same #book-nth".into(), || {
+        fn probe(bm: BookMoves, depth: u32) -> Option<String> {
+            let all: Vec<_> = bm.clone().into_iter().map(|m| (m.source as u8, m.dest as u8)).collect();
+            let len = all.len();
+            if bm.clone().into_iter().count() != len {
+                return Some(format!("count-differs-at-depth-{depth}"));
+            }
+            for n in (0..len + 1).chain([len + 1, len + 2, len + 5, len + 13, len + 100]) {
+                let got = bm.clone().into_iter().nth(n).map(|m| (m.source as u8, m.dest as u8));
+                let want = all.get(n).copied();
+                if got != want {
+                    return Some(format!("nth({n})-of-a-list-of-{len}-at-depth-{depth}:{got:?}-instead-of-{want:?}"));
+                }
+            }
+            if depth < 3 {
+                for m in bm.clone() {
+                    if let Some(e) = probe(m.children, depth + 1) {
+                        return Some(e);
+                    }
+                }
+            }
+            None
+        }
+        match probe(INITIAL_BOOOK_MOVES, 0) {
+            None => "same".into(),
+            Some(e) => format!("differs:{e}"),
+        }
+    });
     out.exhaustive = true;
     out.notes.insert("exhaustive".into(), "every node of the embedded book reached from INITIAL_BOOOK_MOVES, each move played with the real move_mut from the standard position".into());
 }
